@@ -300,6 +300,8 @@ class Loops:
             pass
         mutated = set()
         for s, o in res1:
+            if o.kind not in ("normal", "continue"):
+                continue  # a mutation on a path that leaves the loop is carried by that path's own state
             for hid in pre_heap_ids:
                 if s.heap.get(hid) is not st.heap[hid]:
                     mutated.add(hid)
@@ -722,7 +724,18 @@ class Loops:
             return False
 
     def oblige(self, name, st, goal, kind):
+        """an invariant may be given as a list of conjuncts: one obligation per conjunct"""
+        if isinstance(goal, (list, tuple)):
+            for n, g in enumerate(goal):
+                self.ex.obligations.append({"name": f"{name}.c{n}", "hyps": list(st.pc), "goal": g, "kind": kind})
+            return
         self.ex.obligations.append({"name": name, "hyps": list(st.pc), "goal": goal, "kind": kind})
+
+    @staticmethod
+    def _conj(inv_value):
+        if isinstance(inv_value, (list, tuple)):
+            return z3.And(*inv_value) if len(inv_value) > 1 else inv_value[0]
+        return inv_value
 
     def for_with_invariant(self, node, st, fr, itv, spec: LoopSpec, key):
         ex = self.ex
@@ -741,7 +754,7 @@ class Loops:
         self.havoc(s1, fr, spec)
         s1.assume(0 <= kk, kk < n)
         s1.created.append(kk)
-        s1.assume(spec.inv(LoopCtx(ex, s1, fr, kk, n, None, pre)))
+        s1.assume(self._conj(spec.inv(LoopCtx(ex, s1, fr, kk, n, None, pre))))
         _n, elems = self.generic_elements(s1, fr, itv, kk)
         for s2, v in elems:
             if self._is_raised(v):
@@ -765,7 +778,7 @@ class Loops:
         s5 = st.fork()
         self.havoc(s5, fr, spec)
         nn = z3.If(n > 0, n, 0)
-        s5.assume(spec.inv(LoopCtx(ex, s5, fr, nn, n, None, pre)))
+        s5.assume(self._conj(spec.inv(LoopCtx(ex, s5, fr, nn, n, None, pre))))
         if node.orelse:
             out.extend(ex.exec_block(node.orelse, s5, fr))
         else:
@@ -784,7 +797,7 @@ class Loops:
         self.oblige(f"{tag}/inv-init", st, spec.inv(LoopCtx(ex, st, fr, None, None, None, pre)), "inv-init")
         s1 = st.fork()
         self.havoc(s1, fr, spec)
-        s1.assume(spec.inv(LoopCtx(ex, s1, fr, None, None, None, pre)))
+        s1.assume(self._conj(spec.inv(LoopCtx(ex, s1, fr, None, None, None, pre))))
         for s2, c in ex.ev(node.test, s1, fr):
             if self._is_raised(c):
                 out.append((s2, Outcome("raise", exc=c.exc, info=c.info)))
